@@ -140,4 +140,103 @@ theorem tie_skel_c15_linkedBuffer_releasePreviousReadAndReserve : Gen.Skel.linke
   "}",
   "}"] := by rfl
 
+/-! further functions on this property's paths (any edit to them is reported) -/
+
+theorem tie_skel_NewSessionManager : Gen.Skel.NewSessionManager = [
+  "func NewSessionManager(config *SessionManagerConfig) (*SessionManager, error) {",
+  "sm := &SessionManager{",
+  "config: config,",
+  "pools: make([]*streamPool, 0, config.SessionNum),",
+  "ctx: context.Background(),",
+  "}",
+  "for i := 0; i < config.SessionNum; i++ {",
+  "session, err := newClientSession(i, 0, 0, config)",
+  "if err != nil {",
+  "for k := 0; k < len(sm.pools); k++ {",
+  "sm.pools[k].close()",
+  "}",
+  "return nil, err",
+  "}",
+  "session.manager = sm",
+  "p := newStreamPool(uint32(config.MaxStreamNum))",
+  "p.session.Store(session)",
+  "sm.pools = append(sm.pools, p)",
+  "}",
+  "sm.background()",
+  "return sm, nil",
+  "}"] := by rfl
+
+theorem tie_skel_newStreamPool : Gen.Skel.newStreamPool = [
+  "func newStreamPool(poolCapacity uint32) *streamPool {",
+  "return &streamPool{streams: make([]*Stream, poolCapacity), capacity: poolCapacity}",
+  "}"] := by rfl
+
+theorem tie_skel_newClientSession : Gen.Skel.newClientSession = [
+  "func newClientSession(sessionID int, epochID, randID uint64, config *SessionManagerConfig) (*Session, error) {",
+  "var conn net.Conn",
+  "var err error",
+  "if config.UnixPath != \"\" {",
+  "conn, err = net.DialTimeout(\"unix\", config.UnixPath, config.ConnectionWriteTimeout)",
+  "} else {",
+  "conn, err = net.DialTimeout(config.Network, config.Address, config.ConnectionWriteTimeout)",
+  "}",
+  "if err != nil {",
+  "return nil, err",
+  "}",
+  "conf := *config.Config",
+  "conf.ShareMemoryPathPrefix += \"_\" + strconv.Itoa(os.Getpid())",
+  "if config.MemMapType == MemMapTypeDevShmFile {",
+  "if len(conf.ShareMemoryPathPrefix)+epochInfoMaxLen+queueInfoMaxLen > fileNameMaxLen {",
+  "return nil, ErrFileNameTooLong",
+  "}",
+  "}",
+  "if epochID > 0 {",
+  "conf.ShareMemoryPathPrefix += \"_epoch_\" + strconv.FormatUint(epochID, 10) + \"_\" + strconv.FormatUint(randID, 10)",
+  "}",
+  "if conf.ShareMemoryPathPrefix != \"\" {",
+  "conf.QueuePath = conf.ShareMemoryPathPrefix + \"_queue_\" + strconv.Itoa(sessionID)",
+  "}",
+  "session, err := newSession(&conf, conn, true)",
+  "if err != nil {",
+  "return nil, err",
+  "}",
+  "session.sessionID = sessionID",
+  "session.epochID = epochID",
+  "session.randID = randID",
+  "return session, nil",
+  "}"] := by rfl
+
+theorem tie_skel_DefaultSessionManagerConfig : Gen.Skel.DefaultSessionManagerConfig = [
+  "func DefaultSessionManagerConfig() *SessionManagerConfig {",
+  "return &SessionManagerConfig{",
+  "Config: DefaultConfig(),",
+  "Address: \"\",",
+  "SessionNum: 1,",
+  "MaxStreamNum: 4096,",
+  "StreamMaxIdleTime: time.Second * 30,",
+  "}",
+  "}"] := by rfl
+
+theorem tie_skel_InitGlobalSessionManager : Gen.Skel.InitGlobalSessionManager = [
+  "func InitGlobalSessionManager(config *SessionManagerConfig) (*SessionManager, error) {",
+  "smMux.Lock()",
+  "defer smMux.Unlock()",
+  "if globalSM != nil {",
+  "return globalSM, nil",
+  "}",
+  "sm, err := NewSessionManager(config)",
+  "if err != nil {",
+  "return nil, err",
+  "}",
+  "globalSM = sm",
+  "return globalSM, nil",
+  "}"] := by rfl
+
+theorem tie_skel_GlobalSessionManager : Gen.Skel.GlobalSessionManager = [
+  "func GlobalSessionManager() *SessionManager {",
+  "smMux.Lock()",
+  "defer smMux.Unlock()",
+  "return globalSM",
+  "}"] := by rfl
+
 end Tie.C15
